@@ -371,18 +371,30 @@ structure DictRd where
 deriving Repr, DecidableEq
 
 /-- length of the dictionary word at the head (`switch buf[idx]` of `ReadDictEnc`); the string length is
-`uint32(3 + uint16)`: the sum is taken in uint16 and WRAPS -/
+`3 + uint32(uint16)` (patch c16-5: the length is widened BEFORE 3 is added) -/
 def dictWordLen : Bytes → Res Nat
+  | [] => .panic
+  | t :: rest =>
+    if t = tStr then
+      match rdN 2 rest with
+      | some (n, _) => .ok (3 + n)
+      | none => .panic
+    else if t = tBool then .ok 2
+    else if t = tI64 ∨ t = tF64 then .ok 9
+    else if t = tBackfill then .ok 1
+    else .err "bad-encoding"
+
+/-- BEFORE patch c16-5 the string length was `uint32(3 + uint16)`: the sum was taken in uint16 and WRAPPED for a
+string of 65533..65535 bytes (the reader went on in the middle of the word: the column came back empty, or the
+slice expression ran past the buffer and the process died) -/
+def dictWordLenOld : Bytes → Res Nat
   | [] => .panic
   | t :: rest =>
     if t = tStr then
       match rdN 2 rest with
       | some (n, _) => .ok ((3 + n) % 65536)
       | none => .panic
-    else if t = tBool then .ok 2
-    else if t = tI64 ∨ t = tF64 then .ok 9
-    else if t = tBackfill then .ok 1
-    else .err "bad-encoding"
+    else dictWordLen (t :: rest)
 
 /-- the record numbers of one word -/
 def readRecNums (w recCount : Nat) : Nat → Bytes → List Nat → Bool → Res (Bytes × List Nat × Bool)
